@@ -129,6 +129,9 @@ pub struct Config {
     /// stale memory holds no word with bit 0 set (see PhysMem::even_garbage)
     #[serde(default)]
     pub even_garbage: bool,
+    /// about a quarter of the words of stale memory are zero (see PhysMem::sparse_garbage)
+    #[serde(default)]
+    pub sparse_garbage: bool,
 }
 
 #[derive(Clone, Debug, PartialEq, Eq, Serialize, Deserialize)]
